@@ -1,8 +1,11 @@
 (* C25 -- compiled functions report faithful names and signatures: the expression printer
    behind embedded signatures and the qualified-name transform.
-   Only statements; proofs live in Proof/P_ExprPrint.v and Proof/P_ExprPrint_Read.v. *)
-From Coq Require Import List NArith Bool Arith.
+   Second part (below): the code object behind inspect.signature() - the module-wide bit-field
+   struct of code-object descriptions and inspect._signature_from_function.
+   Only statements; proofs live in Proof/P_ExprPrint.v, Proof/P_ExprPrint_Read.v, Proof/P_CodeDescr.v. *)
+From Coq Require Import List NArith ZArith Bool Arith.
 From CyVerif Require Import Lib.CInt Model.M_ExprPrint Proof.P_ExprPrint Proof.P_ExprPrint_Read.
+From CyVerif Require Import Model.M_CodeDescr Proof.P_CodeDescr.
 Import ListNotations.
 Open Scope nat_scope.
 
@@ -69,3 +72,83 @@ Example C25_nonvacuous :
   wf e = true /\ reparse 400 (print true e) = RExpr e /\
   swfs false w_scopes = true /\ cy_module true w_scopes = rule_module w_scopes.
 Proof. vm_compute. repeat split; reflexivity. Qed.
+
+(* ------------------------------------------------------------------------------------------ *)
+(* the code object: Code.py generate_codeobject_constants / ExprNodes.py CodeObjectNode /       *)
+(* ModuleSetupCode.c __Pyx_PyCode_New / inspect._signature_from_function (Model/M_CodeDescr.v)  *)
+(* ------------------------------------------------------------------------------------------ *)
+Open Scope Z_scope.
+
+(* for every module (list of functions of every kind that gets a code object: def, generator,
+   coroutine, async generator, generator expression) and every function in it, the six numbers
+   written into the description initialiser are unchanged by the module's bit-field struct, whose
+   widths are the bit lengths of the module-wide maxima (generator expressions left out of the
+   three argument maxima only) *)
+Theorem C25_descr_survives : forall fs f, In f fs -> wf_src f = true ->
+  store (widths skip_genexpr fs) (emitted f) = emitted f.
+Proof. exact descr_survives. Qed.
+Print Assumptions C25_descr_survives.
+
+(* ... for every choice of what is left out, as long as only generator expressions are *)
+Theorem C25_descr_survives_any_skip : forall skip fs f, (forall k, skip k = true -> k = KGenExpr) ->
+  In f fs -> wf_src f = true -> store (widths skip fs) (emitted f) = emitted f.
+Proof. exact descr_survives_gen. Qed.
+Print Assumptions C25_descr_survives_any_skip.
+
+(* bit-fields laid out one after the other: reading them back gives each value mod 2^width,
+   for all widths and values *)
+Theorem C25_pack_unpack : forall ws vs, length ws = length vs -> Forall (fun w => 0 <= w) ws ->
+  unpack ws (pack ws vs) = map (fun wv => store_field (fst wv) (snd wv)) (combine ws vs).
+Proof. exact pack_unpack. Qed.
+Print Assumptions C25_pack_unpack.
+
+Theorem C25_packed_descr_survives : forall fs f, In f fs -> wf_src f = true ->
+  unpack (fields (widths skip_genexpr fs)) (pack (fields (widths skip_genexpr fs)) (fields (emitted f)))
+  = fields (emitted f).
+Proof. exact packed_descr_survives. Qed.
+Print Assumptions C25_packed_descr_survives.
+
+(* the struct is not wider than needed: a w-bit argcount field (w > 1) holds a w-bit value *)
+Theorem C25_widths_tight_argcount : forall fs, 1 < d_argcount (widths skip_genexpr fs) ->
+  exists f, In f fs /\ 2 ^ (d_argcount (widths skip_genexpr fs) - 1) <= d_argcount (emitted f).
+Proof. exact widths_tight_argcount. Qed.
+Print Assumptions C25_widths_tight_argcount.
+
+(* the code object of every function carries the declared counts, flags, line and names *)
+Theorem C25_code_counts_faithful : forall fs f, In f fs -> wf_src f = true -> s_kind f <> KGenExpr ->
+  let c := code_of skip_genexpr fs f in
+  co_argcount c = zlen (s_po f) + zlen (s_pk f) /\ co_posonlyargcount c = zlen (s_po f) /\
+  co_kwonlyargcount c = zlen (s_ko f) /\ co_flags c = flags_of f /\ co_firstlineno c = s_line f /\
+  co_varnames c = varnames f.
+Proof. exact code_counts_faithful. Qed.
+Print Assumptions C25_code_counts_faithful.
+
+(* THE PROPERTY for this region: inspect.signature() (as computed by _signature_from_function from
+   __code__, __defaults__, __kwdefaults__) of every function of every module lists exactly the
+   declared parameters - names, kinds and default values - whatever else the module contains.
+   wf_src = what the parser accepts: defaults on a suffix of the positional parameters, distinct
+   keyword-only names; SigError (an IndexError inside inspect) is an explicit result. *)
+Theorem C25_signature_faithful : forall fs f, In f fs -> wf_src f = true -> s_kind f <> KGenExpr ->
+  compiled_sig skip_genexpr fs f = SigOk (source_sig f).
+Proof. exact signature_faithful. Qed.
+Print Assumptions C25_signature_faithful.
+
+(* the variant "if not def_node.is_generator" (generators, coroutines and async generators left
+   out of the maxima) loses parameters:  def plain(a, b=1)  next to
+   def gen(a, b, c=3, d=4, *, key=5, flag=6, **kw): yield *)
+Theorem C25_skip_generators_refuted :
+  In w_gen w_module /\ wf_src w_gen = true /\ wf_src w_plain = true /\
+  survives skip_generators w_module w_gen = false /\
+  compiled_sig skip_generators w_module w_gen <> SigOk (source_sig w_gen) /\
+  compiled_sig skip_genexpr w_module w_gen = SigOk (source_sig w_gen).
+Proof. exact skip_generators_refuted. Qed.
+Print Assumptions C25_skip_generators_refuted.
+
+Example C25_codedescr_nonvacuous :
+  wf_src w_gen = true /\ s_kind w_gen <> KGenExpr /\ In w_gen w_module /\
+  fields (widths skip_genexpr w_module) = [3; 1; 2; 3; 10; 3] /\
+  fields (emitted w_gen) = [4; 0; 2; 7; 43; 6] /\
+  compiled_sig skip_genexpr w_module w_gen =
+    SigOk [(1%N, PosOrKw, None); (2%N, PosOrKw, None); (3%N, PosOrKw, Some 3%N); (4%N, PosOrKw, Some 4%N);
+           (5%N, KwOnly, Some 5%N); (6%N, KwOnly, Some 6%N); (7%N, VarKw, None)].
+Proof. vm_compute. repeat split; try reflexivity. discriminate. right; left; reflexivity. Qed.
